@@ -71,10 +71,13 @@ def run(ctx):
         shifts8 = [0, 1, -3, 8, -8, 5 * 8 // 2, 8 * width, -8 * width, 8 * width + 4, -(8 * width + 3), 3 * 8 * width + 1, rng.randint(-80, 80)]
         for mode in ("fEq", "null", "periodic"):
             op = VParallelAdvection([None, None, None, v], basis, c, mode)
-            for s8 in (shifts8[:6 if quick else len(shifts8)] + [8 * width]):
+            # the same operator object serves the whole sequence of calls; it contains runs with the SAME speed and different
+            # time steps (and the same time step with different speeds): a step must depend on its arguments only
+            plan = [(s8, rng.choice([0.5, 1.0, 2.0])) for s8 in (shifts8[:6 if quick else len(shifts8)] + [8 * width])]
+            plan += [(8, 1.0), (4, 0.5), (0, 0.0), (16, 2.0), (-12, -1.5), (-6, -0.75)]      # speed 8h/1 = 4h/0.5 = 16h/2: same c, other dt
+            for s8, dt in plan:
                 cdt = Fr(s8, 8)                    # in cells
-                dt = rng.choice([0.5, 1.0, 2.0])
-                cc = float(cdt) * h / dt           # exact: powers of two
+                cc = (float(cdt) * h / dt) if dt != 0 else 8.0 * h      # exact: powers of two
                 rr = rng.choice([c.rMin, 3.3, 9.1, c.rMax])
                 f = f0.copy()
                 ok, err = True, ""
